@@ -173,13 +173,13 @@ func (vc *VC) Generate() (err error) {
 	if vc.fc != nil {
 		for _, c := range vc.fc.Invs {
 			found := false
-			for _, li := range vc.loopList {
-				if li.ordinal == c.Loop {
+			for _, sl := range vc.staticLoops {
+				if sl.ordinal == c.Loop {
 					found = true
 				}
 			}
 			if !found {
-				vc.bindingFailure(c, fmt.Sprintf("loop %d does not exist (function has %d loops)", c.Loop, len(vc.loopList)))
+				vc.bindingFailure(c, fmt.Sprintf("loop %d does not exist (function has %d loops)", c.Loop, len(vc.staticLoops)))
 			}
 		}
 		if len(vc.retBlocks) > 0 {
@@ -254,51 +254,125 @@ func (vc *VC) axiomRelevant(c *Clause) bool { return true }
 
 // ---- control-flow structure -----------------------------------------------------
 
-func (vc *VC) findLoops() {
-	fn := vc.fn
+// staticLoop: one loop of the function under verification or of a helper that is verified inline at the call
+// site identified by path; ordinal is the number "loop N invariant" clauses use.
+type staticLoop struct {
+	header  *ssa.BasicBlock
+	path    string
+	ordinal int
+}
+
+// loopShape: the natural loops of one function (instance independent).
+type loopShape struct {
+	header *ssa.BasicBlock
+	backs  []*ssa.BasicBlock
+	blocks map[*ssa.BasicBlock]bool
+}
+
+func (vc *VC) loopShapes(fn *ssa.Function) []*loopShape {
+	if sh, ok := vc.shapes[fn]; ok {
+		return sh
+	}
+	by := map[*ssa.BasicBlock]*loopShape{}
 	for _, b := range fn.Blocks {
 		for _, s := range b.Succs {
 			if s.Dominates(b) {
-				vc.backEdge[[2]int{b.Index, s.Index}] = true
-				li := vc.loops[s]
-				if li == nil {
-					li = &loopInfo{header: s, blocks: map[*ssa.BasicBlock]bool{s: true}, phiVals: map[*ssa.Phi]string{}}
-					vc.loops[s] = li
+				vc.backEdge[[2]*ssa.BasicBlock{b, s}] = true
+				ls := by[s]
+				if ls == nil {
+					ls = &loopShape{header: s, blocks: map[*ssa.BasicBlock]bool{s: true}}
+					by[s] = ls
 				}
-				li.backs = append(li.backs, b)
+				ls.backs = append(ls.backs, b)
 			}
 		}
 	}
+	var out []*loopShape
 	for _, b := range fn.Blocks {
-		if li, ok := vc.loops[b]; ok {
-			li.ordinal = len(vc.loopList) + 1
-			vc.loopList = append(vc.loopList, li)
-			// natural loop body: nodes that reach a back-edge source without passing the header
-			var stack []*ssa.BasicBlock
-			for _, u := range li.backs {
-				if !li.blocks[u] {
-					li.blocks[u] = true
-					stack = append(stack, u)
+		ls, ok := by[b]
+		if !ok {
+			continue
+		}
+		out = append(out, ls)
+		// natural loop body: nodes that reach a back-edge source without passing the header
+		var stack []*ssa.BasicBlock
+		for _, u := range ls.backs {
+			if !ls.blocks[u] {
+				ls.blocks[u] = true
+				stack = append(stack, u)
+			}
+		}
+		for len(stack) > 0 {
+			x := stack[len(stack)-1]
+			stack = stack[:len(stack)-1]
+			for _, p := range x.Preds {
+				if !ls.blocks[p] {
+					ls.blocks[p] = true
+					stack = append(stack, p)
 				}
 			}
-			for len(stack) > 0 {
-				x := stack[len(stack)-1]
-				stack = stack[:len(stack)-1]
-				for _, p := range x.Preds {
-					if !li.blocks[p] {
-						li.blocks[p] = true
-						stack = append(stack, p)
+		}
+	}
+	if vc.shapes == nil {
+		vc.shapes = map[*ssa.Function][]*loopShape{}
+	}
+	vc.shapes[fn] = out
+	return out
+}
+
+// installLoops creates the loop records of one instance of fn (the function itself: path "", or a helper being
+// verified inline at path) and returns them; their ordinals come from the static enumeration.
+func (vc *VC) installLoops(fn *ssa.Function, path string) []*loopInfo {
+	var out []*loopInfo
+	for _, ls := range vc.loopShapes(fn) {
+		li := &loopInfo{header: ls.header, blocks: ls.blocks, backs: ls.backs, phiVals: map[*ssa.Phi]string{}}
+		for _, sl := range vc.staticLoops {
+			if sl.header == ls.header && sl.path == path {
+				li.ordinal = sl.ordinal
+			}
+		}
+		li.rangeIx = rangeIndexPhi(ls.header)
+		vc.loops[ls.header] = li
+		vc.loopList = append(vc.loopList, li)
+		out = append(out, li)
+	}
+	return out
+}
+
+func rangeIndexPhi(b *ssa.BasicBlock) *ssa.Phi {
+	var out *ssa.Phi
+	for _, ins := range b.Instrs {
+		if phi, ok := ins.(*ssa.Phi); ok && phi.Comment == "rangeindex" {
+			out = phi
+		}
+	}
+	return out
+}
+
+func (vc *VC) findLoops() {
+	// static enumeration, through the helpers that are verified inline (same walk as the call-site ordinals)
+	var walk func(fn *ssa.Function, path string, depth int, stack []*ssa.Function)
+	walk = func(fn *ssa.Function, path string, depth int, stack []*ssa.Function) {
+		headers := map[*ssa.BasicBlock]bool{}
+		for _, ls := range vc.loopShapes(fn) {
+			headers[ls.header] = true
+		}
+		for _, b := range fn.Blocks {
+			if headers[b] {
+				vc.staticLoops = append(vc.staticLoops, &staticLoop{header: b, path: path, ordinal: len(vc.staticLoops) + 1})
+			}
+			for _, x := range b.Instrs {
+				if call, ok := x.(*ssa.Call); ok && depth < inlMaxDepth && !call.Call.IsInvoke() {
+					if callee := call.Call.StaticCallee(); callee != nil && vc.inlinable(callee) && !inStack(stack, callee) {
+						walk(callee, fmt.Sprintf("%s/%p", path, call), depth+1, append(stack, callee))
 					}
 				}
 			}
-			for _, ins := range b.Instrs {
-				if phi, ok := ins.(*ssa.Phi); ok && phi.Comment == "rangeindex" {
-					li.rangeIx = phi
-				}
-			}
 		}
 	}
+	walk(vc.fn, "", 0, nil)
 	vc.rebindLoops()
+	vc.installLoops(vc.fn, "")
 }
 
 func (vc *VC) topoOrder() []*ssa.BasicBlock {
@@ -309,7 +383,7 @@ func (vc *VC) topoOrder() []*ssa.BasicBlock {
 	dfs = func(b *ssa.BasicBlock) {
 		seen[b] = true
 		for _, s := range b.Succs {
-			if vc.backEdge[[2]int{b.Index, s.Index}] || seen[s] {
+			if vc.backEdge[[2]*ssa.BasicBlock{b, s}] || seen[s] {
 				continue
 			}
 			dfs(s)
@@ -355,7 +429,7 @@ func (vc *VC) block(b *ssa.BasicBlock) {
 		var edges []stEdge
 		var conds []string
 		for _, p := range b.Preds {
-			if b.Parent() == vc.fn && vc.backEdge[[2]int{p.Index, b.Index}] {
+			if vc.backEdge[[2]*ssa.BasicBlock{p, b}] {
 				continue
 			}
 			if _, ok := vc.endState[p]; !ok {
@@ -391,7 +465,7 @@ func (vc *VC) block(b *ssa.BasicBlock) {
 	vc.endState[b] = vc.st
 	// back edges leaving this block: invariant must be re-established
 	for _, s := range b.Succs {
-		if b.Parent() == vc.fn && vc.backEdge[[2]int{b.Index, s.Index}] {
+		if vc.backEdge[[2]*ssa.BasicBlock{b, s}] {
 			vc.backEdgeCheck(b, vc.loops[s])
 		}
 	}
@@ -697,7 +771,7 @@ func (vc *VC) loopHeader(li *loopInfo) {
 		}
 		ev := vc.freshConst("phi_in_"+phi.Name(), sortOf(phi.Type()))
 		for i, p := range b.Preds {
-			if vc.backEdge[[2]int{p.Index, b.Index}] {
+			if vc.backEdge[[2]*ssa.BasicBlock{p, b}] {
 				continue
 			}
 			if _, ok := vc.endState[p]; !ok {
